@@ -67,7 +67,9 @@ def gen_template(rng, features: Dict[str, int]):
     varnames = ['var', 'Name2', 'x_1']
     for _ in range(rng.randint(1, 5)):
         cls = rng.choice(POINT_CLASSES)
-        keys: Dict[str, Any] = {'classname': cls}
+        # class names are case-insensitive in Hammer and in the bundled FGD lookups; NAME_KEYS / STR_KEYS stay keyed by the lower-case name
+        spelled = cls if rng.random() < 0.75 else rng.choice((cls.upper(), cls.title(), cls.capitalize()))
+        keys: Dict[str, Any] = {'classname': spelled}
         keys['origin'] = Vec(rng.randrange(-256, 256), rng.uniform(-256, 256), rng.randrange(-64, 64))
         if rng.random() < 0.8:
             keys['angles'] = f'{rng.randrange(-70, 70)} {rng.randrange(0, 360)} {rng.choice((0, 0, 45, 180))}'
